@@ -442,9 +442,15 @@ func (m *Markdown) renderTemplate(w io.Writer, name string, data map[string]any)
 // inlineText extracts plain text from an inline node tree (used for alt text, heading IDs).
 func inlineText(node ast.Node, src []byte) string {
 	var buf strings.Builder
+	// the text of a code span is literal: backslash escapes and entities are not resolved there
+	_, literal := node.(*ast.CodeSpan)
 	for c := node.FirstChild(); c != nil; c = c.NextSibling() {
 		if t, ok := c.(*ast.Text); ok {
-			buf.WriteString(resolve(t.Segment.Value(src)))
+			if literal {
+				buf.Write(t.Segment.Value(src))
+			} else {
+				buf.WriteString(resolve(t.Segment.Value(src)))
+			}
 			if t.SoftLineBreak() || t.HardLineBreak() {
 				buf.WriteString("\n")
 			}
